@@ -1,4 +1,4 @@
-import ActixNet.Lemmas.SrvInv
+import ActixNet.Lemmas.SrvWake
 /-!
 # C03 — back-pressure releases: spare worker capacity is always used (no lost wake-up)
 
@@ -148,5 +148,56 @@ theorem accept_loop_stops_only_when_drained_or_saturated (cfg : Cfg) :
             split
             · split <;> simp [deregister, upd]
             · simp [deregister, upd]
+
+
+/-- **C03, end to end**: in every reachable state of a fault-free history (all schedules at every
+yield point, every limit ≥ 1, 1..512 workers) that is at an iteration boundary, not faulted and not
+stopped: if some worker has spare capacity and no wake-up for it is still in flight, then every
+listener that is in the poll set and not backing off has **nothing waiting unless a readiness event
+for it is pending** (which the next iteration consumes by accepting from it).  So a waiting
+connection is never stranded behind the accept thread's availability bookkeeping; while paused
+(`C05.paused_means_every_listener_deregistered`) or during back-off the listener is out of the poll
+set by design.  Assumption `OpsOk`: each `poll` is given at least the listeners epoll reports ready. -/
+theorem no_lost_wakeup (cfg : Cfg) (ok : CfgOk cfg) (kinds : List Kind) (ops : List Op)
+    (hf : ∀ op ∈ ops, op.faultFree) (ho : OpsOk cfg (init cfg kinds) ops)
+    (hnf : (run cfg (init cfg kinds) ops).fault = none) (hwb : (run cfg (init cfg kinds) ops).spuriousWB = false)
+    (hne : (run cfg (init cfg kinds) ops).exited = false)
+    (w : Nat) (hw : w < cfg.nIdx) (hspare : inProgress (run cfg (init cfg kinds) ops) w < cfg.limit)
+    (htok : tokOf (run cfg (init cfg kinds) ops).wk (run cfg (init cfg kinds) ops).wq w = 0)
+    (l : Nat) (hl : l < (run cfg (init cfg kinds) ops).nLst)
+    (hreg : ((run cfg (init cfg kinds) ops).lst l).registered = true)
+    (hdl : ((run cfg (init cfg kinds) ops).lst l).deadline = none)
+    (hedge : ((run cfg (init cfg kinds) ops).lst l).edge = false) :
+    ((run cfg (init cfg kinds) ops).lst l).backlog = [] := by
+  -- the worker with spare capacity is marked available …
+  have hav : (run cfg (init cfg kinds) ops).avail w = true := by
+    cases hav : (run cfg (init cfg kinds) ops).avail w with
+    | true => rfl
+    | false =>
+      have := unavailable_only_if_saturated_or_wake_pending cfg ok kinds ops hf w hw hav htok
+      omega
+  have hany : anyAvail cfg (run cfg (init cfg kinds) ops) = true := by
+    unfold anyAvail; exact List.any_eq_true.mpr ⟨w, List.mem_range.mpr hw, hav⟩
+  -- … so no registered, event-less, non-backing-off listener can have anything waiting
+  have hj := (run_JInv cfg ops _ (init_JInv cfg kinds) ho).j hnf hwb hne
+  cases hb : ((run cfg (init cfg kinds) ops).lst l).backlog with
+  | nil => rfl
+  | cons c b =>
+    rcases hj l hl ⟨hreg, hedge, by rw [hb]; simp, hdl⟩ with h | h
+    · rw [hany] at h; cases h
+    · cases h
+
+/-! ### Non-vacuity of `no_lost_wakeup`: a saturating history with limit 1 -/
+def demoCfg : Cfg := { limit := 1, nIdx := 1 }
+def demoOps : List Op :=
+  [.env (.connect 0), .env (.connect 0), .poll [.listener 0, .waker] [],
+   .env (.recv 0), .env (.finishNow 0 none), .poll [.waker] []]
+example : CfgOk demoCfg := ⟨by decide, by decide, by decide⟩
+-- second connection is dispatched by the iteration that consumes the wake-up (limit 1!)
+example : (run demoCfg (init demoCfg [.tcp]) demoOps).dispatched.length = 2 ∧
+    (run demoCfg (init demoCfg [.tcp]) demoOps).fault = none := by decide
+example : OpsOk demoCfg (init demoCfg [.tcp]) demoOps := by
+  simp only [OpsOk, demoOps, and_true, true_and]
+  refine ⟨?_, ?_⟩ <;> (unfold OrderOk; decide)
 
 end ActixNet.C03
